@@ -28,7 +28,7 @@ C = {
          "exhaustive for patterns/texts up to length 5 (6 thorough) over small alphabets; long pairs sampled", "4 C14"),
  "C15": ("exploration", "E1 seqdiff", "reference-model differential monitoring of NICK; snapshot compares every nick-keyed container (I2, I3, I6)", "rich user states x new-nick classes of generated histories", "4 C15"),
  "C16": ("exploration", "E1 seqdiff", "reference-model differential monitoring incl. preconfigured channels under generated configurations; invariant I5", "create/empty/recreate cycles under generated configurations of predefined channels", "4 C16"),
- "C17": ("exploration", "E5 clock", "timestamped event-log monitoring with bounded-progress rules under second-scale timeouts and scripted responder patterns (incl. fragments, split / surplus / double answers, a handler kept busy across the deadline); harness lag measured; clean-up of timed-out users with attachments", "3 (quick) / 7 (thorough) timeout configurations x 27 client behaviours in real time", "4 C17"),
+ "C17": ("exploration", "E5 clock", "timestamped event-log monitoring with bounded-progress rules under second-scale timeouts and scripted responder patterns (incl. fragments, split / surplus / double answers, a handler kept busy across the deadline); harness lag measured; clean-up of timed-out users with attachments", "3 (quick) / 7 (thorough) timeout configurations x 29 scripted peers (22 distinct behaviours) in real time", "4 C17"),
  "C18": ("exploration", "E2 storm", "concurrent stress with jitter hook; offline history checkers: unique winner (claims, renames behind a lock holder), capacity, total-order reconstruction, per-(sender,receiver) FIFO, no-loss under leaving members, bounded progress for bystanders of a stalled reader and for a backlogged receiver's own commands, one-state multi-line query answers, one announcement sequence for many writers of one attribute (W13), queries against writers (W14), mutually exclusive commands (W15), stuck-session endings, quiescent invariants; server diagnosis on time-outs",
          "hundreds of storm rounds; only schedules the OS and the jitter hook produce; specific linearizability consequences, not a full linearizability search", "4 C18"),
  "C19": ("exploration", "E1 seqdiff + slots", "reference-model differential monitoring of LUSERS/ISON/USERHOST with counter recount (I4, I8) under default-mode / account / quota configurations; connection-slot driver; multi-line query storms; stuck-session cases", "generated histories + slot rounds for max_connections in {1,2,5}", "4 C19"),
